@@ -668,8 +668,7 @@ Section C09.
         split; [|exact R1]. cbn [v09]. apply negb_true_iff.
         unfold m1. rewrite rec_op_disp, rec_op_disp_dropped, (r_disp _ _ R), (r_drop _ _ R).
         destruct (finished s) as [[|a]|] eqn:Ef; destruct (dropped s) eqn:Ed; try reflexivity; exfalso;
-          (eapply poll_call_not_pending; [exact E|exact Iv|]); intros [H1 H2]; try congruence.
-        eapply H2; reflexivity.
+          (eapply poll_call_not_pending; [exact E|exact Iv|]); intros [H1 H2]; congruence.
       + (* done *)
         split.
         * destruct (poll_call_done _ _ _ _ E) as (Ho & Hp & Hi).
@@ -692,11 +691,20 @@ Section C09.
         * eapply R09_meq; [exact R1|reflexivity..].
       + split; [reflexivity|exact R1].
     - (* PollDispatch *)
-      clear Nil. cbn [step] in *.
-      destruct (finished s) as [d|] eqn:Ef; [cbn; split; [reflexivity|exact R]|].
-      destruct (dropped s) eqn:Ed; [cbn; split; [reflexivity|exact R]|].
-      set (s0 := upd_tr s (tr s) (fused s) []) in *.
+      clear Nil HS'.
+      destruct (finished s) as [d|] eqn:Ef.
+      { cbn [step]. rewrite Ef. cbn. split; [reflexivity|exact R]. }
+      destruct (dropped s) eqn:Ed.
+      { cbn [step]. rewrite Ef, Ed. cbn. split; [reflexivity|exact R]. }
+      set (s0 := upd_tr s (tr s) (fused s) []).
       destruct (poll_dispatch tp (fuel_of s0) s0) as [r s1] eqn:E.
+      set (s2 := match r with DReady d => upd_fin s1 (Some d) (dropped s1) | _ => s1 end).
+      assert (Est : step tp fuel_of s PollDispatch =
+                    (upd_tr s2 (tr s2) (fused s2) [],
+                     [OCalls (plog s1); ODisp r;
+                      OGauge (N.of_nat (length (inflight s2))) (N.of_nat (length (timers s2)))])).
+      { cbn [step]. rewrite Ef, Ed. fold s0. rewrite E. reflexivity. }
+      rewrite Est. cbn [fst snd].
       assert (R0 : R09 m s0) by (destruct R; constructor; assumption).
       assert (I0 : Inv s0) by (eapply InvX_vframe; [|exact Iv]; constructor; reflexivity).
       assert (Hal0 : alive s0) by (split; cbn; [exact Ed|rewrite Ef; discriminate]).
@@ -710,8 +718,8 @@ Section C09.
           destruct (shut_down (upd_term sx (Some a)) a) as [b sy] eqn:Ey. apply PFrame_shut_down in Ey.
           destruct b; intros [= _ <-]; (split; [rewrite (pf_finished _ _ Ey)|rewrite (pf_dropped _ _ Ey)]);
             apply Ex. }
-      destruct PF as [PF1 PF2]. cbn [finished dropped upd_tr] in PF1, PF2.
-      unfold gauges. cbn [app fst snd chk_obs rec_op].
+      destruct PF as [PF1 PF2]. cbn [finished dropped upd_tr s0] in PF1, PF2.
+      cbn [chk_obs rec_op].
       pose proof (chk_calls_snd maxif m (plog s1)) as Esnd.
       destruct (chk_calls maxif m (plog s1)) as [v m2]. cbn [fst snd] in V, Esnd. subst m2.
       destruct (c_poll _ _ _) as [okc c2]. cbn [fst snd vand v09]. rewrite V. cbn [andb]. split.
@@ -719,12 +727,12 @@ Section C09.
         -- rewrite Ee, Hr. reflexivity.
         -- rewrite Ee, Hr. apply activity_eqb_refl.
       * constructor; cbn [m_first_err m_disp m_disp_dropped m_sent upd_m].
-        -- rewrite Ee. destruct r; reflexivity.
-        -- rewrite mrun_disp. destruct r; cbn [finished upd_tr upd_fin]; [reflexivity|..];
-             rewrite PF1, <- Ef; apply (r_disp _ _ R).
-        -- rewrite mrun_disp_dropped. destruct r; cbn [dropped upd_tr upd_fin]; rewrite PF2, <- Ed;
-             apply (r_drop _ _ R).
-        -- destruct r; exact Sf.
+        -- rewrite Ee. unfold s2. destruct r; reflexivity.
+        -- rewrite mrun_disp. unfold s2. destruct r; cbn [finished upd_tr upd_fin]; [reflexivity|..];
+             rewrite PF1; exact (r_disp _ _ R).
+        -- rewrite mrun_disp_dropped. unfold s2. destruct r; cbn [dropped upd_tr upd_fin]; rewrite PF2;
+             exact (r_drop _ _ R).
+        -- unfold s2. destruct r; exact Sf.
   Qed.
 
   (* ---------------------------------------------------------------- every op list *)
@@ -752,9 +760,17 @@ Section C09.
   Lemma Inv_init t0 qcap mif : Inv (init (T:=T) t0 qcap mif).
   Proof.
     assert (E : forall i, phl (@nil call) i = None) by (intros [|i]; reflexivity).
-    constructor; [constructor|constructor|..]; cbn; try (intros i; rewrite E); try discriminate;
-      try tauto; try constructor.
+    constructor; [constructor|constructor|..]; cbn [calls waiters rx_closed queue inflight slots next_id
+      cancels terminal finished dropped init].
+    - intros i. rewrite E. discriminate.
+    - intros i [].
+    - constructor.
+    - discriminate.
+    - intros i. rewrite E. discriminate.
     - intros i j. rewrite E. discriminate.
+    - intros id [].
+    - intros i. rewrite E. discriminate.
+    - intros id a. discriminate.
     - left. split; [reflexivity|discriminate].
   Qed.
 
